@@ -26,6 +26,15 @@ func verifRoot() string {
 	return "/verif"
 }
 
+// outRoot is where evidence and replay files go: the verif root, unless VERIF_OUTROOT redirects them
+// (runs against a scratch copy of the repository with a seeded change must not overwrite real evidence).
+func outRoot() string {
+	if r := os.Getenv("VERIF_OUTROOT"); r != "" {
+		return r
+	}
+	return verifRoot()
+}
+
 type quietLogger struct {
 	mu   sync.Mutex
 	ring []string
@@ -207,7 +216,7 @@ func (r *Run) Require(cond bool, why string) {
 func (r *Run) Finish() {
 	r.mu.Lock()
 	defer r.mu.Unlock()
-	root := verifRoot()
+	root := outRoot()
 	os.MkdirAll(filepath.Join(root, "evidence"), 0o755)
 	os.MkdirAll(filepath.Join(root, "replays"), 0o755)
 	known := loadFindings()
